@@ -96,10 +96,20 @@ def _families(tier):
                 'inv-put-all-2', 'traits-put', 'aggs-put-new'}
         shapes = [s for s in shapes if s.name in keep]
         return [make_family(s) for s in shapes]
-    fams = [make_family(s) for s in shapes]
+    # the shapes with the most statements x data paths: two fault kinds
+    # instead of four, and near-duplicates of them left out (each is covered
+    # fault-free by C04/C08/C10/C12 and with crashes by C18)
+    heavy = {'reshape-move', 'alloc-put-anyversion'}
+    skip = {'reshape-move-1.38-newattrs', 'alloc-post-anyversion',
+            'alloc-post-2c-2classes', 'alloc-put-2p-2classes',
+            'alloc-post-2c-newowner'}
+    shapes = [s for s in shapes if s.name not in skip]
+    fams = [make_family(s) for s in shapes if s.name not in heavy]
     pairs = {'alloc-put', 'aggs-put-new', 'inv-delete-all'}
     fams += [make_family(s, kinds=('deadlock', 'dberror'), budget=2)
              for s in shapes if s.name in pairs]
+    fams += [make_family(s, kinds=('deadlock+rollback', 'dberror'))
+             for s in shapes if s.name in heavy]
     return fams
 
 
